@@ -861,5 +861,139 @@ Proof.
   rewrite (not_array_not_str _ HA), HA. f_equal.
   rewrite sort_s_map by (apply normN_fst). unfold sch_feats. rewrite HS. reflexivity.
 Qed.
+
+(* ---- arrays stored as elements of their own ---- *)
+Lemma cv_list l : cv c (VList l) = do l' <- mapM (cv c) l ;; Ok (CColl "" l').
+Proof.
+  cbn [cv]. f_equal.
+  induction l as [|x r IH]; [reflexivity|]. cbn [mapM]. destruct (cv c x); cbn [bind]; try reflexivity.
+  rewrite IH. reflexivity.
+Qed.
+Definition norm_coll (v : cval) : cval := match v with CColl k l => CColl k (map norm_str l) | v => v end.
+Definition arr_val (o : option (list cval)) : cval := match o with Some l => CColl "" l | None => CNull end.
+
+Lemma xattr_elements2 ns tag a b kids : xattr (mkX ns tag [(A_ID, a); ("elements", b)] kids) "elements" = Some b.
+Proof. reflexivity. Qed.
+Lemma xkids_nil ns tag attrs n : xkids (mkX ns tag attrs []) n = [].
+Proof. reflexivity. Qed.
+Lemma arr_core tn f ns i e :
+  is_array_name tn = true ->
+  Bool.eqb (isa s tn T_STRING_ARRAY) (String.eqb tn T_STRING_ARRAY) = true ->
+  match slot f "elements" with
+  | VNone => true
+  | VList l => forallb (array_elem_okb tn (c_heap c) ids) l
+  | _ => false
+  end = true ->
+  o_type f = tn ->
+  enc_fs fmt_flt s c ns i f = Ok e ->
+  exists k o X, coll_kind tn = Some k /\ dec_coll parse_flt k e "elements" = Ok o /\ cv c (slot f "elements") = Ok X
+    /\ arr_val o = (if is_str_array tn then norm_coll X else X)
+    /\ exists attrs kids, e = mkX ns (snd (ns_of_type tn)) ((A_ID, z2s i) :: attrs) kids.
+Proof.
+  intros HA HI HV HT HE. unfold enc_fs in HE. rewrite HT in HE.
+  change (is_prim_array_name tn || String.eqb tn T_FS_ARRAY) with (is_array_name tn) in HE. rewrite HA in HE.
+  apply eqb_prop in HI.
+  assert (exists k, coll_kind tn = Some k /\ (tn = T_STRING_ARRAY -> k = FStrColl) /\ (tn = T_FS_ARRAY -> k = FIdColl)) as [k [CK [KS KF]]].
+  { unfold is_array_name in HA. apply orb_prop in HA. destruct HA as [HA|HA].
+    - unfold is_prim_array_name in HA. apply memb_In in HA. cbn [prim_array_names In] in HA.
+      destruct HA as [<-|[<-|[<-|[<-|[<-|[<-|[<-|[<-|[]]]]]]]]]; eexists; (split; [reflexivity|split; intros; try discriminate; reflexivity]).
+    - apply String.eqb_eq in HA. subst. eexists; (split; [reflexivity|split; intros; try discriminate; reflexivity]). }
+  exists k.
+  destruct (slot f "elements") as [| | | | | |l|] eqn:SE; try discriminate.
+  - (* elements is None *)
+    injection HE as <-. exists None, CNull. repeat split; try assumption.
+    + rewrite dec_coll_eq. cbn. destruct k; try reflexivity; (unfold coll_kind in CK;
+        repeat match type of CK with (if ?b then _ else _) = _ => destruct b end; discriminate).
+    + destruct (is_str_array tn); reflexivity.
+    + eauto.
+  - destruct (String.eqb tn T_STRING_ARRAY) eqn:ES.
+    + (* string array *)
+      apply String.eqb_eq in ES. rewrite HI in HE. rewrite (KS ES) in *. clear KS KF. rewrite ES in *.
+      assert (forallb str_or_none l = true) as HV' by (rewrite <- HV; apply forallb_ext_eq; intros x; reflexivity).
+      destruct (str_elems c l HV') as [E1 [E2 E3]]. rewrite E1 in HE. cbn [bind] in HE. injection HE as <-.
+      exists (Some (dec_strs (map st l))), (CColl "" (map cvs l)). repeat split; try assumption.
+      * rewrite dec_coll_eq. unfold xkids, xattr. cbn [x_kids x_attrs].
+        assert (map snd (filter (fun p => String.eqb (fst p) "elements") (map (fun t => ("elements", t)) (map st l))) = map st l) as KE.
+        { clear. induction (map st l) as [|t r IH]; [reflexivity|]. cbn [map filter fst]. cbn [String.eqb Ascii.eqb Bool.eqb]. cbn [map snd]. rewrite IH. reflexivity. }
+        rewrite KE. destruct l as [|x l']; [reflexivity|]. reflexivity.
+      * rewrite cv_list, E2. reflexivity.
+      * change (is_str_array T_STRING_ARRAY) with true. cbv iota. cbn [arr_val norm_coll]. rewrite E3. reflexivity.
+      * eauto.
+    + rewrite HI in HE.
+      assert (is_str_array tn = false) as NS by exact ES. rewrite NS.
+      destruct (String.eqb tn T_FS_ARRAY) eqn:EF.
+      * (* FSArray *)
+        apply String.eqb_eq in EF. rewrite (KF EF) in *. clear KS KF. rewrite EF in *.
+        assert (forallb (ref_okb (c_heap c) ids) l = true) as HV' by (rewrite <- HV; apply forallb_ext_eq; intros x; reflexivity).
+        destruct (ref_elems c ids l H0 HV') as [E1 [E2 E3]]. rewrite E1 in HE. cbn [bind] in HE. injection HE as <-.
+        exists (Some (map (ref_cv (c_heap c)) l)), (CColl "" (map (ref_cv (c_heap c)) l)). repeat split; try assumption.
+        -- rewrite dec_coll_eq, xattr_elements2, xkids_nil. cbn [dec_coll']. rewrite E3. reflexivity.
+        -- rewrite cv_list, E2. reflexivity.
+        -- eauto.
+      * (* primitive arrays *)
+
+        destruct (ser_prim_array fmt_flt tn l) as [a| |] eqn:SEr; try discriminate. cbn [bind] in HE. injection HE as <-.
+        assert (is_prim_array_name tn = true) as HP.
+        { unfold is_array_name in HA. rewrite EF, orb_false_r in HA. exact HA. }
+        assert (tn <> T_STRING_ARRAY) as NSA by (apply String.eqb_neq; exact ES).
+        assert (forallb (prim_elem_okb tn) l = true) as HV'.
+        { rewrite <- HV. apply forallb_ext_eq. intros x. unfold array_elem_okb. rewrite ES, EF. reflexivity. }
+        destruct (prim_arr_rt tn l a HP NSA HV' SEr) as [k' [l' [CK' [D C]]]]. rewrite CK in CK'. injection CK' as <-.
+        exists (Some l'), (CColl "" l'). repeat split; try assumption.
+        -- rewrite cv_list, C. reflexivity.
+        -- eauto.
+Qed.
+
+Lemma dec_enc_fs_arr sofas io f ti e :
+  hget (c_heap c) (snd io) = Some f -> sch_find s (o_type f) = Some ti -> is_array_name (o_type f) = true ->
+  fs_okb s c ids io = true ->
+  enc_fs fmt_flt s c (fst (ns_of_type (o_type f))) (fst io) f = Ok e ->
+  dec_fs parse_flt s sofas e = do x <- canon_fs s c io ;; Ok (fst x, norm_cfs s (snd x)).
+Proof.
+  intros HG HS HA HO HE. destruct io as [i o]. cbn [fst snd] in *.
+  unfold fs_okb in HO. cbn [snd fst] in HO. rewrite HG, HS, HA in HO.
+  apply andb_prop in HO. destruct HO as [HO H]. apply andb_prop in HO. destruct HO as [_ HTn].
+  apply andb_prop in H. destruct H as [_ H].
+  apply andb_prop in H. destruct H as [H HOth]. apply andb_prop in H. destruct H as [H HEl].
+  apply andb_prop in H. destruct H as [H HIsa]. apply andb_prop in H. destruct H as [HFd _].
+  unfold tname_okb in HTn. apply andb_prop in HTn. destruct HTn as [HTn _]. apply opt_eqb_str in HTn.
+  destruct (arr_core (o_type f) f _ i e HA HIsa HEl eq_refl HE) as [k [ov [X [CK [D [CV [AV [attrs [kids ->]]]]]]]]].
+  unfold arr_val in AV.
+  unfold dec_fs. rewrite x_id_cons. cbn [bind x_ns x_tag]. rewrite HTn, HS, HA, CK, D. cbn [bind].
+  unfold canon_fs. cbn [snd fst]. rewrite HG, HS.
+  assert (mapM (canon_feature s c f) (ti_feats ti)
+          = Ok (map (fun fd => (fd_xname fd, if String.eqb (fd_xname fd) "elements" then X else CNull)) (ti_feats ti))) as CM.
+  { apply mapM_ok_map. intros fd Hfd. rewrite canon_feature_eq. unfold canon_val.
+    pose proof (forallb_In _ _ _ HFd Hfd) as P. apply andb_prop in P. destruct P as [PN PI].
+    apply String.eqb_eq in PN. apply negb_true_iff in PI. rewrite PI.
+    pose proof (forallb_In _ _ _ HOth Hfd) as Q.
+    destruct (String.eqb (fd_xname fd) "elements") eqn:EE.
+    - apply String.eqb_eq in EE. rewrite PN, EE, CV. reflexivity.
+    - apply orb_prop in Q. destruct Q as [Q|Q]; [congruence|]. destruct (slot f (fd_name fd)); try discriminate. reflexivity. }
+  rewrite CM. cbn [bind fst snd]. f_equal. f_equal. unfold norm_cfs. cbn [cf_type cf_feats].
+  destruct (is_str_array (o_type f)) eqn:SA.
+  - f_equal.
+    change (fun nv : string * cval => (fst nv, match snd nv with CColl k0 l => CColl k0 (map norm_str l) | v => v end))
+      with (fun nv : string * cval => (fst nv, norm_coll (snd nv))).
+    rewrite <- sort_s_map by reflexivity. f_equal. rewrite map_map. apply map_ext. intros fd. cbn [fst snd].
+    rewrite AV. unfold norm_coll. destruct (String.eqb (fd_xname fd) "elements"); [destruct X|]; reflexivity.
+  - rewrite HA. f_equal. f_equal. apply map_ext. intros fd. rewrite AV. reflexivity.
+Qed.
+
+(* every element the writer produces for a feature structure decodes to the canonical content of that structure *)
+Theorem dec_enc_fs g io f e :
+  sofas_track g -> NoDup (map (fun v => s_xid (v_sofa v)) (c_views c)) ->
+  hget (c_heap c) (snd io) = Some f -> fs_okb s c ids io = true ->
+  enc_fs fmt_flt s c (fst (ns_of_type (o_type f))) (fst io) f = Ok e ->
+  dec_fs parse_flt s (map g (c_views c)) e = do x <- canon_fs s c io ;; Ok (fst x, norm_cfs s (snd x)).
+Proof.
+  intros HT ND HG HO HE.
+  assert (exists ti, sch_find s (o_type f) = Some ti) as [ti HS].
+  { unfold fs_okb in HO. rewrite HG in HO. destruct (sch_find s (o_type f)) as [ti|]; [eauto|].
+    rewrite andb_false_r in HO. discriminate. }
+  destruct (is_array_name (o_type f)) eqn:HA.
+  - eapply dec_enc_fs_arr; eassumption.
+  - eapply dec_enc_fs_ord; eassumption.
+Qed.
 End Val.
 End Flt.
